@@ -442,7 +442,7 @@ fn read_annotation(r: &mut R, pool: &Pool, depth: u32) -> PResult<Annotation> {
     Ok(Annotation { type_, pairs })
 }
 fn read_element_value(r: &mut R, pool: &Pool, depth: u32) -> PResult<ElementValue> {
-    if depth > 200 { return Err("element_value nesting too deep".into()); }
+    if depth > 2000 { return Err("element_value nesting too deep".into()); } // own guard of the harness (generated nesting goes to ~460)
     let tag = r.u8(Role::Tag)?;
     Ok(match tag {
         b'B' | b'C' | b'I' | b'S' | b'Z' => { let i = r.u16(Role::PoolIndex)?; match pool.get(i)? { PE::Int(v) => ElementValue::IntLike(tag, *v), o => return Err(format!("element_value {}: expected Integer, found {o:?}", tag as char)) } }
